@@ -357,6 +357,11 @@ private:"""),
     indices_t filter"""),
     dict(property="C08", name="resize-sclass-threshold-differs", rule="R-C08-5", file="src/datasource.cpp",
          old=": (feature.classes() <= (tensor_size_t(1) << 16)) ? feature_type::uint16", new=": (feature.classes() < (tensor_size_t(1) << 16)) ? feature_type::uint16"),
+    dict(property="C08", name="pairwise-rows-swapped-restored", rule="R-C08-9", file="src/generator/pairwise_base.cpp",
+         old="const auto value = std::make_pair(i1, i2); // NB: row of the first mapping, row of the second mapping!",
+         new="const auto value = (feature1 <= feature2) ? std::make_pair(i1, i2) : std::make_pair(i2, i1);"),
+    dict(property="C08", name="product-after-multiplication-cast", rule="R-C08-8", file="include/nano/generator/pairwise_product.h", tu="src/generator/pairwise_product.cpp",
+         old="{ return static_cast<scalar_t>(values1(0)) * static_cast<scalar_t>(values2(0)); };", new="{ return static_cast<scalar_t>(values1(0) * values2(0)); };"),
     dict(property="C08", name="getbit-other-bit-order", rule="R-C08-6", file="include/nano/datasource/mask.h", tu="src/datasource.cpp",
          old="return (mask(sample / 8) & (0x01 << (7 - (sample % 8)))) != 0x00;", new="return (mask(sample / 8) & (0x01 << (sample % 8))) != 0x00;"),
     dict(property="C08", name="mask-size-truncated", rule="R-C08-6", file="src/datasource.cpp",
@@ -419,6 +424,12 @@ private:"""),
         }
     }
 }"""),
+    dict(property="C14", name="all-missing-column-keeps-min-sentinel", rule="R-C14-7", file="src/dataset/stats.cpp",
+         old="""                stats.m_min(i)  = 0.0;
+                stats.m_max(i)  = 0.0;
+                stats.m_mean(i) = 0.0;""", new="""                stats.m_max(i)  = 0.0;
+                stats.m_max(i)  = 0.0;
+                stats.m_mean(i) = 0.0;"""),
     dict(property="C14", name="flatten-mask-only-sclass", rule="R-C14-4", file="src/dataset/stats.cpp",
          old="const auto isclass     = feature.is_sclass() || feature.is_mclass();", new="const auto isclass     = feature.is_sclass();"),
     dict(property="C14", name="upscale-bias-after-weights", rule="R-C14-5", file="src/dataset/stats.cpp",
